@@ -377,6 +377,41 @@ def _h_sasl_wire(n, fixed=None):
     return fn
 
 
+GOOD_PLAIN = b'AHUAcA=='          # base64 of NUL u NUL p : the valid credentials of WIRE_USERS[0]
+
+
+def malformed_line(pos, junk):
+    """the valid response with `junk` (bytes / items) inserted at character position pos"""
+    return list(GOOD_PLAIN[:pos]) + list(junk) + list(GOOD_PLAIN[pos:]) + [13, 10]
+
+
+def _h_sasl_malformed(njunk):
+    """a response that is not base64 - valid credentials with characters from outside the alphabet in it - is a malformed
+    exchange: it leaves the connection unauthenticated"""
+    def fn(eng):
+        from pysymex import fresh_bytes, SymBytes, Outcome
+        from checks import _conn
+        pos = eng.choose('pos', len(GOOD_PLAIN) + 1)
+        junk = fresh_bytes(eng, 'j', njunk)
+        for c in junk.items:
+            t = c.t
+            import z3
+            eng.add(z3.Not(z3.Or(z3.And(t >= 48, t <= 57), z3.And(t >= 65, t <= 90), z3.And(t >= 97, t <= 122),
+                                 t == 43, t == 47, t == 61, t == 10)))
+            if pos == len(GOOD_PLAIN):
+                eng.add(t != 13)          # CR before the final CRLF is line-ending, not content
+        line = SymBytes(malformed_line(pos, junk.items), 'bytes')
+        g = dict(_g)
+        from pymap.imap import IMAPConnection
+        g['IMAPConnection'] = IMAPConnection
+        authed, err, owner = sasl_wire(g, _g['_sim'], _conn, line)
+        wit = lambda m: {'pos': pos, 'junk': bytes(junk.eval(m)).hex()}  # noqa: E731
+        if err:
+            return Outcome(False, witness=wit, info=err)
+        return Outcome(not authed, witness=wit, info='a response that is not base64 authenticated the connection as %s' % (owner,))
+    return fn
+
+
 def harnesses(tier):
     from pysymex.runner import Harness
     cfgs = [(1, 1), (2, 1), (2, 2)] if tier == 'quick' else [(1, 1), (2, 1), (2, 2), (2, 3)]
@@ -387,6 +422,10 @@ def harnesses(tier):
     wire.append(Harness('sasl_plain_on_the_wire[raw=5,byte1=NUL]', _h_sasl_wire(5, {1: 0}),
                         {'decoded_response_bytes': 5, 'shape': 'one-character authzid', 'users': WIRE_USERS}, replay='saslwire',
                         task_budget=60))
+    for nj in ([1] if tier == 'quick' else [1, 2]):
+        wire.append(Harness('sasl_plain_malformed_base64[junk=%d]' % nj, _h_sasl_malformed(nj),
+                            {'response': 'valid credentials in base64 with %d byte(s) from outside the alphabet at any position' % nj,
+                             'probe': 'LIST after the exchange'}, replay='saslmalformed', task_budget=60))
     wire.append(Harness('lookalike_accounts', _h_lookalike(),
                         {'users': 'x and x+<any code point> (either order)', 'attempt': 'own password, authzid = the other account',
                          'saslprep': 'modelled: ASCII exact, B.1 (mapped to nothing) exact'}, replay='scenario', task_budget=60))
@@ -406,6 +445,16 @@ def replay(harness, w):
     from pysasl.creds.plain import PlainCredentials
     g.update(locals())
     bad = []
+    if harness == 'saslmalformed':
+        from checks import _conn
+        from pymap.imap import IMAPConnection
+        g['IMAPConnection'] = IMAPConnection
+        authed, err, owner = sasl_wire(g, _sim, _conn, bytes(malformed_line(w['pos'], bytes.fromhex(w['junk']))))
+        if err:
+            bad.append(err)
+        elif authed:
+            bad.append('response %r authenticated the connection as %s' % (bytes(malformed_line(w['pos'], bytes.fromhex(w['junk']))), owner))
+        return {'violates': bool(bad), 'detail': bad[:3], 'category': 'sasl wire: malformed base64'}
     if harness == 'saslwire':
         import base64
         from checks import _conn
